@@ -13,13 +13,13 @@ TRUST = ('Static rule conformance decided from /repo source on every run. '
 P = {
  'C01': dict(
   tech='effect analysis (shared-mutable-state / who-writes-what) over the parse path, incl. ply lexer hand-off',
-  text='Sufficient structural condition: no mutable location is shared between two parses of one engine (fresh ply lexer per call or one lock shared by every engine built around that lexer, token/grammar actions store only into per-call objects and never read the per-parse parser state of ply, error hook raises so ply never enters recovery). If the rules pass, the property holds for all texts, histories and schedules given ply\'s documented contract.',
+  text='Sufficient structural condition: no mutable location is shared between two parses of one engine (fresh ply lexer per call or one lock shared by every engine built around that lexer, token/grammar actions store only into per-call objects and never read the per-parse parser state of ply, error hook raises so ply never enters recovery; methods of the lexer, parser, factory and engine classes store into the instance and never into class-level or module-level containers shared by every engine of the process; clone() of a repository class that stands in for the lexer shares no mutable attribute with the original). If the rules pass, the property holds for all texts, histories and schedules given ply\'s documented contract.',
   note=TRUST + 'ply 3.11 LRParser.parse keeps its stacks in locals; Lexer.clone() gives an independent cursor.',
   ref='6/C01'),
  'C02': dict(
   cat='translation_validation',
   tech='LALR-table conformance query (operator table -> generated grammar -> automaton), per configuration; no text is ever parsed',
-  text='Translation validation of the table->grammar generator: for each analysed operator table the generated LALR automaton\'s shift/reduce decision at every (completed operator item, operator look-ahead) pair is compared with what the table dictates; these decisions are the only points where two parse trees of one token string can diverge, so conformance decides the property for every expression of that engine. Quantifies over configurations by enumeration (default, legacy, and a family of insert_operator tables in the thorough tier).',
+  text='Translation validation of the table->grammar generator: for each analysed operator table the generated LALR automaton\'s shift/reduce decision at every (completed operator item, operator look-ahead) pair is compared with what the table dictates; these decisions are the only points where two parse trees of one token string can diverge, so conformance decides the property for every expression of that engine. Quantifies over configurations by enumeration (default, legacy, and a family of insert_operator tables in the thorough tier). The reduce actions are evaluated abstractly for every operator symbol of the standard table, with and without an alias, and must build the same kind of node for all of them.',
   note=TRUST + 'ply\'s LALR construction and LR driver. Tables outside the analysed family are validated per output, not proved for all inputs.',
   ref='6/C02'),
  'C03': dict(
@@ -29,87 +29,87 @@ P = {
   ref='6/C03'),
  'C04': dict(
   tech='scope-discipline dataflow (reaching definitions of the context handed to payloads / lambdas / writers)',
-  text='Necessary clauses only (scope discipline): each payload call runs in a child context created per invocation; lambdas evaluate in a child of their definition context; context-writing library functions write only into their own injected context. Equality with a reference interpreter is NOT decided.',
+  text='Necessary clauses only (scope discipline): each payload call runs in a child context created per invocation; lambdas evaluate in a child of their definition context; context-writing library functions write only into their own injected context; the collection overload of the member operator answers every element through the member-operator delegate; a named unpack makes no positional binding. Equality with a reference interpreter is NOT decided.',
   note=TRUST + 'decides the named structural clauses, not the values computed.',
   ref='6/C04'),
  'C05': dict(
   tech='resolution-skeleton checks: error-class control dependence on the receiver test, must-pass-through of value_type.check for every argument slot, loop-exit (first layer wins), handler typing, laziness agreement scope; plus the shared sweep / kind-predicate / layer-walk rules',
-  text='Necessary structural clauses of the documented 8-step procedure, NOT its input/output relation: each resolution error class is raised on the right side of the receiver test and at the right stage (unknown iff the collection is empty); in both phases every argument value passes value_type.check and failing it is the only thing that excludes an overload; every slot handed to the payload comes from the checker; the layer loop is left at the first layer with a winner; only ArgumentException excludes an overload; the agreed lazy set spans all layers and is keyed like the evaluation sweep; eager arguments are evaluated in one sweep shared by all candidates; kind predicate; nearest-first layer walk stopping at exclusive layers. Which overload the arity/keyword/default arithmetic of map_args and the specificity comparison select is not decided.',
+  text='Necessary structural clauses of the documented 8-step procedure, NOT its input/output relation: each resolution error class is raised on the right side of the receiver test and at the right stage (unknown iff the collection is empty); in both phases every argument value passes value_type.check and failing it is the only thing that excludes an overload; every slot handed to the payload comes from the checker; the layer loop is left at the first layer with a winner; only ArgumentException excludes an overload; the agreed lazy set spans all layers and is keyed like the evaluation sweep; eager arguments are evaluated in one sweep shared by all candidates; kind predicate; nearest-first layer walk stopping at exclusive layers (also for any subclass that overrides the walk); the specificity comparison pairs keyword parameters by keyword name. Which overload the arity/keyword/default arithmetic of map_args and the specificity comparison select is not decided.',
   note=TRUST + 'necessary clauses only; order independence of the winner is decided under C06.',
   ref='7 and Appendix E'),
  'C06': dict(
   tech='order-taint analysis of loops over unordered overload sets on the resolution path',
-  text='Sufficient condition: every loop on the resolution path that iterates an unordered collection carries state only through order-insensitive forms; order-tainted lists are only used order-insensitively; the all-equal idiom on lazy sets is symmetric; registration state is updated by commutative operations only. If it passes, resolution cannot depend on enumeration order for any overload family.',
+  text='Sufficient condition: every loop on the resolution path that iterates an unordered collection carries state only through order-insensitive forms; order-tainted lists are only used order-insensitively; the all-equal idiom on lazy sets is symmetric; registration state is updated by commutative operations only; a merged layer is the union of what its members offer; clone() copies the parameter definitions it later edits. If it passes, resolution cannot depend on enumeration order for any overload family.',
   note=TRUST + 'SmartType.check / is_specialization_of are pure functions of their operands.',
   ref='6/C06'),
  'C07': dict(
   tech='who-may-call / must-pass-through analysis of reflection sinks over all evaluation-time code',
-  text='Decides which code may touch host-object members: reflective sinks (dynamic getattr/setattr, vars, format with data templates, subscripts on host objects, calls of data) are enumerated over the whole library and must be in the owner table, dominated by name validation on the raw name, and capability-typed. The decision table of _validate_name and of the Yaqlized checker is decided by exhaustive abstract evaluation over a bounded abstraction (names x lists of <= 2 opaque entries x every match valuation). Matching semantics of whitelist entries are values and not decided.',
+  text='Decides which code may touch host-object members: reflective sinks (dynamic getattr/setattr, vars, format with data templates, subscripts on host objects, calls of data) are enumerated over the whole library and must be in the owner table, dominated by name validation on the raw name, and capability-typed. The decision table of _validate_name and of the Yaqlized checker is decided by exhaustive abstract evaluation over a bounded abstraction (names x lists of <= 2 opaque entries x every match valuation). The predicates that classify values found in the data (is_iterable, is_sequence, ...) only apply type tests to them. Matching semantics of whitelist entries are values and not decided.',
   note=TRUST + 'host-supplied callables (yaqlized methods, predicates) are host code.',
   ref='6/C07'),
  'C08': dict(
   tech='declared-type vs body-consumption analysis of every registered overload; must-pass-through for quota/limit calls',
-  text='Decides that every parameter whose elements a library function consumes is declared with a limiting smart type (or consumed through limit_iterable), that the finaliser iterates only through the limiter, that runner.call and SmartType.convert apply the quota on every path, that repetition operators check before allocating, and that limit_memory_usage measures every sample. The arithmetic of the bounds is not decided.',
+  text='Decides that every parameter whose elements a library function consumes is declared with a limiting smart type (or consumed through limit_iterable), that the finaliser iterates only through the limiter, that runner.call and SmartType.convert apply the quota on every path, that repetition operators check before allocating, that limit_memory_usage measures every sample, and that no eager consumer is applied to an element of a collection argument (elements are not limit-wrapped). The arithmetic of the bounds is not decided.',
   note=TRUST + 'limit_iterable / limit_memory_usage bodies are checked structurally (raise inside the loop / before return), their numeric comparisons are not.',
   ref='6/C08'),
  'C09': dict(
   tech='effect analysis (in-place mutation of parameter-derived values, context/node/definition writes) over all evaluation-time functions',
-  text='Sufficient for the "unchanged" clauses: no evaluation-time code path performs an in-place write on a value derived from a non-hidden parameter, on the host\'s context chain, on expression nodes or on function definitions. Does not decide equal results on re-evaluation for nondeterministic functions.',
+  text='Sufficient for the "unchanged" clauses: no evaluation-time code path performs an in-place write on a value derived from a non-hidden parameter, on the host\'s context chain, on expression nodes or on function definitions; classes that store into self after construction are instantiated per call, never when the library is registered. Does not decide equal results on re-evaluation for nondeterministic functions.',
   note=TRUST + 'host callables are outside the analysis.',
   ref='6/C09'),
  'C10': dict(
   tech='abstract interpretation of convert_output_data / convert_input_data over a finite container-shape domain x option flags',
-  text='Type-level behaviour of the finaliser on every container shape (depth 2, thorough 3) under the 4 option combinations: no unhashable-element error, output plain for those options; every statement result passes through the finaliser; the converters keep no id()-keyed cache. Equality of values is not decided.',
+  text='Type-level behaviour of the finaliser on every container shape (depth 2, thorough 3) under the 4 option combinations: no unhashable-element error, output plain for those options; every statement result passes through the finaliser, which hands the value out unconverted exactly when the host set yaql.convertOutputData to false (81 option scenarios evaluated abstractly); the converters keep no id()-keyed cache. Equality of values is not decided.',
   note=TRUST + 'ABC memberships of builtin container kinds are looked up from the interpreter.',
   ref='6/C10'),
  'C11': dict(
   tech='evaluation-site enumeration + control-dependence / at-most-once path analysis of lazy operands',
-  text='Decides: argument evaluation sites sit in one sweep outside candidate loops and are unreachable from matching code; the lazy argument set is keyed by index / call keyword like the sweep; the functions named in the statement declare their operands lazy and call the unselected operand only under the selecting test; per-element callables are not applied from (anything reachable from) comparison methods; positional arguments are swept before keyword arguments; the callable built for a Lambda evaluates on every invocation. Full trace equality with an order model is not decided.',
+  text='Decides: argument evaluation sites sit in one sweep outside candidate loops and are unreachable from matching code; the lazy argument set is keyed by index / call keyword like the sweep; the functions named in the statement declare their operands lazy and call the unselected operand only under the selecting test; per-element callables are not applied from (anything reachable from) comparison methods; positional arguments are swept before keyword arguments; the callable built for a Lambda evaluates on every invocation; the plumbing every collection argument travels through does not read ahead of its consumer. Full trace equality with an order model is not decided.',
   note=TRUST + 'necessary clauses.',
   ref='6/C11'),
  'C12': dict(
   tech='declaration-level checks: keyword-name language, declared (AST) vs effective (reflected) registry diff, kind predicate def-use, bounded LALR-table simulation of argument-list shapes with abstractly interpreted actions',
-  text='Necessary conditions at declaration level: every visible parameter has a writable, unique keyword name; the registry recovered from decorators agrees with the effective registry (name, kind, no_kwargs, parameter order, aliases, laziness); runner.call tests is_function / is_method on the right branches; on the generated LALR tables every bounded pattern of value/empty positional slots is accepted and yields one entry per slot; the lazy set is keyed like the sweep; hidden parameters of **kwargs functions are unwritable names; clone() copies parameter definitions; call() forwards kwargs keys verbatim. Result equality across spellings is not decided.',
+  text='Necessary conditions at declaration level: every visible parameter has a writable, unique keyword name; the registry recovered from decorators agrees with the effective registry (name, kind, no_kwargs, parameter order, aliases, laziness); runner.call tests is_function / is_method on the right branches; on the generated LALR tables every bounded pattern of value/empty positional slots is accepted and yields one entry per slot; the lazy set is keyed like the sweep; hidden parameters of **kwargs functions are unwritable names; clone() copies parameter definitions; call() forwards kwargs keys verbatim; argument mapping never decides presence of a keyword by comparing a looked-up value with None. Result equality across spellings is not decided.',
   note=TRUST + 'reflection executes import-time and registration code only, never runner.call.',
   ref='6/C12'),
  'C13': dict(
   tech='iterator-linearity (consumed-at-most-once per path) analysis of iterator-admitting parameters',
-  text='One necessary clause: along every path a parameter that may hold a one-shot iterator is consumed at most once unless first re-bound to a re-iterable or an explicit cursor, and the premise that utils.memorize hands out an independent cursor per pass. Agreement with a reference model is not decided.',
+  text='Necessary clauses: no local that means nothing-yet while it is None is bound to a value of the evaluation (null is a value); a whole-stream read of a cursor that an earlier read ran to its end sees nothing; and along every path a parameter that may hold a one-shot iterator is consumed at most once unless first re-bound to a re-iterable or an explicit cursor, and the premise that utils.memorize hands out an independent cursor per pass. Agreement with a reference model is not decided.',
   note=TRUST + 'one clause only.',
   ref='6/C13'),
  'C14': dict(
   tech='laziness / short-circuit shape analysis of every streaming payload and of the limiter plumbing',
-  text='Decides laziness of every streaming operator named in the statement: the source is consumed only inside yielding loops or by lazy builtins, never by an eager consumer; searches return from inside the loop; the wrapper classes of the plumbing do not answer len/truth/membership by reading the source; uncatalogued library callees count as readers. The exact "+1" of the bound is arithmetic and not decided.',
+  text='Decides laziness of every streaming operator named in the statement: the source is consumed only inside yielding loops or by lazy builtins, never by an eager consumer; searches return from inside the loop; the wrapper classes of the plumbing do not answer len/truth/membership by reading the source; uncatalogued library callees count as readers; no eager consumer is applied to the result of a per-element lambda inside a streaming operator. The exact "+1" of the bound is arithmetic and not decided.',
   note=TRUST + 'itertools/map/filter/zip laziness.',
   ref='6/C14'),
  'C15': dict(
   tech='type-level overload kind-matrix + body-shape checks of operator wrappers',
-  text='Type-level: which scalar kinds each operator overload admits (bool never as a number, null rows complete, unrelated kinds unmatched), ordering siblings agree, null truth table constants, wrappers return the Python operation of their symbol, the number x number and str x str overloads and =/!= ARE the plain Python operation, null is no arithmetic operand, check() overrides on scalar operand types only narrow the inherited check, int division uses // and %. Python\'s own int/float/str semantics are the trusted base for the algebraic laws.',
+  text='Type-level: which scalar kinds each operator overload admits (bool never as a number, null rows complete, unrelated kinds unmatched), ordering siblings agree, null truth table constants, wrappers return the Python operation of their symbol, the number x number and str x str overloads and =/!= ARE the plain Python operation, null is no arithmetic operand, check() overrides on scalar operand types only narrow the inherited check, int division uses // and % (decided by abstract evaluation under the four int / non-int assumptions), and every operator symbol is reduced to an operator call node (shared with C02). Python\'s own int/float/str semantics are the trusted base for the algebraic laws.',
   note=TRUST + 'Python integer/float/str semantics.',
   ref='6/C15'),
  'C16': dict(
   tech='regular-language checks on the lexer\'s token/escape regexes + def-use in token actions',
-  text='Lexer-level necessary clauses: escapes are decoded per matched escape, the escape alternatives cover the documented set without shadowing, quoted-token regexes denote Q([^Q\\\\]|\\\\.)*Q, keyword guard and keyword table, context-free word classification, number conversion choice (decided by abstract evaluation of the token actions), constant nodes carry the token value, the lexer sees the text the caller passed. The round trip for every string is not decided.',
+  text='Lexer-level necessary clauses: escapes are decoded per matched escape, the escape alternatives cover the documented set without shadowing, quoted-token regexes denote Q([^Q\\\\]|\\\\.)*Q, keyword guard and keyword table, context-free word classification, number conversion choice (decided by abstract evaluation of the token actions, with representatives of 41, 1283 and 4001 digits: the value is int() of the whole text), constant nodes carry the token value, the lexer sees the text the caller passed. The round trip for every string is not decided.',
   note=TRUST + 're._parser syntax trees of the token regexes.',
   ref='6/C16'),
  'C17': dict(
   tech='interface-discipline checks across the three context classes (normalisation, own-layer, ask_parent gating, exclusivity, merge)',
-  text='Necessary clauses: every _data access uses a normalised key; membership/keys never reach the parent; parent use is gated by ask_parent; collect_functions stops at exclusive layers; writes go to the own layer (a multi-context always writes its first member); lookups are pure; MultiContext merges all members. Equivalence with a flattened model over histories is not decided.',
+  text='Necessary clauses: every _data access uses a normalised key; membership/keys never reach the parent; parent use is gated by ask_parent; collect_functions stops at exclusive layers (every override is held to the same obligations); create_child_context of every context class builds the child on the context itself; writes go to the own layer (a multi-context always writes its first member); lookups are pure; MultiContext merges all members. Equivalence with a flattened model over histories is not decided.',
   note=TRUST + 'necessary clauses.',
   ref='6/C17'),
  'C18': dict(
   tech='effect analysis: per-call taint into shared objects / globals / class attributes over all evaluation-time code',
-  text='Sufficient condition: no per-call information is stored in a location that outlives the call (expression nodes, definitions, smart types, engine, shared contexts, module globals, class attributes, mutable defaults); stateful lazy helper classes are instantiated only inside payload bodies; no in-place write on argument data (shared with C09).',
+  text='Sufficient condition: no per-call information is stored in a location that outlives the call (expression nodes, definitions, smart types, engine, shared contexts, module globals, class attributes, mutable defaults); stateful lazy helper classes are instantiated only inside payload bodies; no in-place write on argument data (shared with C09); lambda arguments are published into a child context made per invocation (shared with C04).',
   note=TRUST + 'CPython makes individual attribute/dict reads atomic.',
   ref='6/C18'),
  'C19': dict(
   tech='API-conformance lints: stdlib attribute resolution, re.Match API kinds, sibling-body symmetry',
-  text='Necessary API-conformance clauses: every stdlib attribute referenced exists; match-object API is used with indices/names (not values) and iteration arity matches; sibling functions differ only in their documented direction/polarity; getattr on a library module with names from a constant table resolves for every name; findall is not applied to caller-supplied patterns. Agreement with a reference model is not decided.',
+  text='Necessary API-conformance clauses: every stdlib attribute referenced exists; match-object API is used with indices/names (not values) and iteration arity matches; sibling functions differ only in their documented direction/polarity; getattr on a library module with names from a constant table resolves for every name; findall is not applied to caller-supplied patterns; a regex replacement callback evaluates the lambda for every match; builtin str() is applied to a value of the evaluation only where null, true and false are excluded. Agreement with a reference model is not decided.',
   note=TRUST + 'the interpreter\'s stdlib modules are inspected for attribute existence only.',
   ref='6/C19'),
  'C20': dict(
   tech='abstract interpretation of date_time.py over an (instant, offset-tag, awareness) domain + unit-constant evaluation',
-  text='Decides the instant/offset algebra of utc / timestamp / offset / datetime(timestamp, offset), naive-safety of bare-typed parameters, fixed-offset zones built from the total offset, and the unit constants of the timespan properties. Float rounding is not decided.',
+  text='Decides the instant/offset algebra of utc / timestamp / offset / datetime(timestamp, offset), naive-safety of bare-typed parameters, fixed-offset zones built from the total offset, the unit constants of the timespan properties, that the ordering overloads compare without a float projection of their operands, and that no datetime is rebuilt from the fields of another one (which drops fold). Float rounding is not decided.',
   note=TRUST + 'datetime/dateutil semantics of astimezone, replace, utcoffset, fromtimestamp.',
   ref='6/C20'),
 }
